@@ -36,28 +36,28 @@ def _warn_name(call):
     return None
 
 
-def _flat(stmts, depth, out, path):
+def _flat(stmts, depth, out, path, loops=False):
     for s in stmts:
         if isinstance(s, ast.Expr) and isinstance(s.value, ast.Constant) and isinstance(s.value.value, str):
             continue  # docstring
         if isinstance(s, ast.If):
             out.append((depth, f"if {ast.unparse(s.test)}:"))
-            _flat(s.body, depth + 1, out, path)
+            _flat(s.body, depth + 1, out, path, loops)
             if s.orelse:
                 out.append((depth, "else:"))
-                _flat(s.orelse, depth + 1, out, path)
+                _flat(s.orelse, depth + 1, out, path, loops)
         elif isinstance(s, ast.Try):
             out.append((depth, "try:"))
-            _flat(s.body, depth + 1, out, path)
+            _flat(s.body, depth + 1, out, path, loops)
             for h in s.handlers:
                 out.append((depth, f"except {ast.unparse(h.type) if h.type is not None else ''}:"))
-                _flat(h.body, depth + 1, out, path)
+                _flat(h.body, depth + 1, out, path, loops)
             if s.orelse:
                 out.append((depth, "else:"))
-                _flat(s.orelse, depth + 1, out, path)
+                _flat(s.orelse, depth + 1, out, path, loops)
             if s.finalbody:
                 out.append((depth, "finally:"))
-                _flat(s.finalbody, depth + 1, out, path)
+                _flat(s.finalbody, depth + 1, out, path, loops)
         elif isinstance(s, ast.Raise):
             e = s.exc
             name = ast.unparse(e.func if isinstance(e, ast.Call) else e) if e is not None else ""
@@ -66,6 +66,10 @@ def _flat(stmts, depth, out, path):
                 and s.value.func.attr == "append" and s.value.args and isinstance(s.value.args[0], ast.Call) \
                 and _warn_name(s.value.args[0]) is not None:
             out.append((depth, f"{ast.unparse(s.value.func.value)}.append(<{_warn_name(s.value.args[0])}>)"))
+        elif loops and isinstance(s, (ast.For, ast.While)) and not s.orelse:
+            head = (f"for {ast.unparse(s.target)} in {ast.unparse(s.iter)}:" if isinstance(s, ast.For) else f"while {ast.unparse(s.test)}:")
+            out.append((depth, " ".join(head.split())))
+            _flat(s.body, depth + 1, out, path, loops)
         elif isinstance(s, (ast.For, ast.While, ast.With, ast.FunctionDef, ast.ClassDef, ast.Match)):
             raise Unsupported(path, f"window functions: compound statement {type(s).__name__} is outside the modelled subset")
         else:
@@ -151,3 +155,29 @@ def window_statements(repo):
             "def blankAfterEmptyCheck : List (String × Bool) := ["
             + ", ".join(f"({lean_str(a)}, {'true' if b else 'false'})" for a, b in order) + "]\n\n"
             "end EEM.Gen.WindowStatements\n")
+
+
+# --------------------------------------------------------------------------- C06: the statements of the DST functions
+DST_PATH = "opendsm/eemeter/models/hourly/model.py"
+DST_FUNCS = ["_get_dst_indices", "_transform_dst"]
+
+
+def dst_statements(repo):
+    """the bodies of `_get_dst_indices` and `_transform_dst` flattened as above (loops allowed): `EEM.Model.DstSrc` is a literal
+    transcription of `_transform_dst`, statement by statement — `EEM.Spec.DstStatements` freezes the statements it was transcribed from"""
+    tree = ast.parse(open(os.path.join(repo, DST_PATH)).read())
+    fns = {n.name: n for n in tree.body if isinstance(n, ast.FunctionDef)}
+    blocks = []
+    for name in DST_FUNCS:
+        fn = fns.get(name)
+        if fn is None:
+            raise Unsupported(DST_PATH, f"function {name} not found")
+        lines = []
+        _flat(fn.body, 0, lines, DST_PATH, loops=True)
+        body = ",\n".join(f"    ({d}, {lean_str(t)})" for d, t in lines)
+        blocks.append(f"  ({lean_str(name)}, [{', '.join(lean_str(a.arg) for a in fn.args.args)}], [\n{body}])")
+    return ("/- GENERATED by /verif/harness/py2lean (DST-statement extractor: AST of the live source) — do not edit. -/\n"
+            "namespace EEM.Gen.DstStatements\n\n"
+            "/-- (function, parameters, flattened body as (depth, text)) -/\n"
+            "def functions : List (String × List String × List (Nat × String)) := [\n" + ",\n".join(blocks) + "]\n\n"
+            "end EEM.Gen.DstStatements\n")
